@@ -5,6 +5,8 @@ sys.path.insert(0, os.path.dirname(os.path.abspath(__file__)))
 from vx import registry as R
 
 CLAIM = {
+ 'C12': ('Deductive proof (Verus, every major/minor/max_readahead/flags/flags2 and every option set the filesystem may return) on the real text of Server::init: the capability word offered to the filesystem is flags, widened by flags2 only when FUSE_INIT_EXT comes with its payload; a lower major is answered EPROTO and a higher one with the server major without initialising the filesystem; otherwise the kernel\'s view of the reply (flags2 counted only with the FUSE_INIT_EXT marker) equals capable & want, the reply has the length for the client\'s minor, max_write fits the transport buffer, and only the client\'s version may be stored. Also: Vfs::open/opendir answer ENOSYS exactly when no_open/no_opendir is in force.',
+         'Verus contracts on extracted real text (Server::init), existential reply specification with explicit witnesses'),
  'C16': ('Deductive proof (Verus, names of any length, any max and cursor state) of the reply-assembly step only: add_dirent appends either nothing and returns Ok(0) - exactly when the whole entry does not fit in what is left of the requested size - or one whole 8-byte-aligned entry (entry_out for plus, dirent header with the caller\'s ino/off/type/namelen, name, zero padding) and returns its size, and never grows the reply beyond the requested size. The exactly-once property across chunks is NOT decided.',
          'Verus contract on extracted real text (add_dirent)'),
  'C01': ('Deductive proof (Verus, every request byte string and every reply-buffer capacity) on the real text of Server::handle_message and all opcode handlers against an abstract transport: every device write is preceded by the proof that nothing was emitted before (at most one reply, one write call), that a reply is allowed at all (never for FORGET / BATCH_FORGET, including the over-long path), and that the bytes are one complete message (length field = bytes emitted, unique = the request\'s, error zero or a negated errno); all arithmetic, casts, unwraps and the debug assertions of the extracted functions are proved not to fail.',
